@@ -1,44 +1,34 @@
 #!/bin/sh
-# sensitivity.sh — apply every property-breaking change (mutants/c*.patch, seeded/*/patch.diff) to /repo,
-# one at a time, run the quick check of the property it breaks and require exit 1 with a VIOLATION line and
-# a replay file that reproduces; apply every neutral refactor (mutants/neutral_*.patch) and require exit 0
-# from all three checks. /repo is restored after each (git checkout -- .). Not referenced by MANIFEST.json.
-# Results: /verif/sensitivity_results.txt
+# sensitivity.sh [C15|C16|C20] — for every property-breaking change (mutants/c*.patch, seeded/*/patch.diff),
+# one at a time: run the quick check of the property it breaks against a tree with the change and require
+# exit 1 with a VIOLATION line and a replay file that reproduces on the changed tree and is quiet on the clean
+# one; for every neutral change (mutants/neutral_*.patch, neutral/*/patch.diff) require exit 0 from all three
+# checks. Each experiment runs through scripts/try_isolated.sh: an export of /repo's HEAD with the change is
+# bind-mounted over /repo in a private mount namespace and a scratch copy of /verif runs there, so neither
+# /repo nor /verif (evidence, replays) is touched. Not referenced by MANIFEST.json.
+# Results: /verif/sensitivity_results.txt (only when run without an argument)
 set -u
 ROOT="$(cd "$(dirname "$0")/.." && pwd)"
-ONLY="${1:-}"   # optional: C15 | C16 | C20 - run only the changes breaking that property (results go to stdout only)
+ONLY="${1:-}"
+SLOT="${SENS_SLOT:-sens}"
 OUT="$ROOT/sensitivity_results.txt"
 [ -n "$ONLY" ] && OUT="/dev/null"
-cd /repo || exit 2
-if [ -n "$(git status --porcelain)" ]; then echo "/repo has local changes or untracked files; refusing"; exit 2; fi
 : > "$OUT"
+# freeze the machinery under test: later edits in /verif do not leak into a running experiment series
+export VERIF_SRC="/tmp/iso-$SLOT-src"
+rm -rf "$VERIF_SRC"; mkdir -p "$VERIF_SRC"
+rsync -a --exclude target --exclude .git --exclude replays --exclude evidence --exclude 'target.build.log*' "$ROOT/" "$VERIF_SRC/"
 run_breaking() { # name patch property
-    name="$1"; patch="$2"; prop="$3"
-    if [ -n "$ONLY" ] && [ "$ONLY" != "$prop" ]; then return; fi
-    git apply "$patch" || { echo "$name: patch does not apply" | tee -a "$OUT"; return; }
-    log=$(cd "$ROOT" && ./run.sh "$prop" quick 2>&1); code=$?
-    line=$(printf '%s\n' "$log" | grep '^VIOLATION' | head -1)
-    class=$(printf '%s\n' "$log" | grep '^violation class=' | head -1 | sed 's/ detail:.*//')
-    replay=$(printf '%s\n' "$line" | sed 's/.*replay=//')
-    rcode="-"
-    if [ -n "$replay" ] && [ -f "$replay" ]; then (cd "$ROOT" && ./run.sh replay "$replay" >/dev/null 2>&1); rcode=$?; fi
-    git checkout -- . ; git clean -fdq src examples; find /repo -name '*.snap.new' -delete
-    ucode="-"
-    if [ -n "$replay" ] && [ -f "$replay" ]; then (cd "$ROOT" && ./run.sh replay "$replay" >/dev/null 2>&1); ucode=$?; rm -f "$replay"; fi
-    if [ "$code" = 1 ] && [ "$rcode" = 1 ] && [ "$ucode" = 0 ]; then verdict=CAUGHT; else verdict=MISSED; fi
-    echo "$verdict $name property=$prop check_exit=$code replay_on_changed_tree=$rcode replay_on_clean_tree=$ucode $class" | tee -a "$OUT"
+    if [ -n "$ONLY" ] && [ "$ONLY" != "$3" ]; then return; fi
+    line=$("$ROOT/scripts/try_isolated.sh" "$SLOT" "$2" "$3" breaking 2>&1 | grep -E '^(CAUGHT|MISSED)' | head -1 | cut -c1-400)
+    verdict=${line%% *}; rest=${line#* }
+    echo "${verdict:-MISSED} $1 $rest" | tee -a "$OUT"
 }
 run_neutral() { # name patch
-    name="$1"; patch="$2"
     if [ -n "$ONLY" ]; then return; fi
-    git apply "$patch" || { echo "$name: patch does not apply" | tee -a "$OUT"; return; }
-    res=""
-    for prop in C15 C16 C20; do
-        (cd "$ROOT" && ./run.sh "$prop" quick >/dev/null 2>&1); res="$res $prop=$?"
-    done
-    git checkout -- . ; git clean -fdq src examples; find /repo -name '*.snap.new' -delete
-    case "$res" in *"=1"*|*"=2"*) verdict=ALARM ;; *) verdict=QUIET ;; esac
-    echo "$verdict $name (neutral refactor)$res" | tee -a "$OUT"
+    line=$("$ROOT/scripts/try_isolated.sh" "$SLOT" "$2" C15 neutral 2>&1 | grep -E '^(QUIET|ALARM)' | head -1)
+    verdict=${line%% *}; rest=${line#* }
+    echo "${verdict:-ALARM} $1 (neutral change) $rest" | tee -a "$OUT"
 }
 for p in "$ROOT"/mutants/c1*.patch "$ROOT"/mutants/c2*.patch; do
     [ -f "$p" ] || continue
@@ -59,4 +49,10 @@ for d in "$ROOT"/neutral/*/; do
     [ -f "$d/patch.diff" ] || continue
     run_neutral "neutral/$(basename "$d")" "$d/patch.diff"
 done
-(cd "$ROOT" && for prop in C15 C16 C20; do if [ -n "$ONLY" ] && [ "$ONLY" != "$prop" ]; then continue; fi; ./run.sh $prop quick >/dev/null 2>&1; echo "clean tree $prop exit=$?"; done) | tee -a "$OUT"
+# the unchanged tree
+if [ -z "$ONLY" ]; then
+    line=$("$ROOT/scripts/try_isolated.sh" "$SLOT" - C15 neutral 2>&1 | grep -E '^(QUIET|ALARM)' | head -1)
+    echo "clean tree: $line" | tee -a "$OUT"
+fi
+"$ROOT/scripts/try_isolated.sh" "$SLOT" clean
+rm -rf "$VERIF_SRC"
